@@ -622,6 +622,11 @@ impl SwarmDriver {
         Ok(())
     }
 
+    #[cfg(maidsafe_safe_network_verif)]
+    pub(crate) fn verif_kad_event(&mut self, kad_event: libp2p::kad::Event) -> Result<()> {
+        self.handle_kad_event(kad_event)
+    }
+
     fn send_record_after_checking_target(
         senders: Vec<oneshot::Sender<std::result::Result<Record, GetRecordError>>>,
         record: Record,
